@@ -19,7 +19,9 @@ EXTENDS SaveSink, Json, IOUtils, TLC
 
 Recs == ndJsonDeserialize(IOEnv.TRACE)
 
-VARIABLES l, ctx
+VARIABLES l, ctx, tally      \* tally: number of records judged ok-failed / ok-chunk / ok-intr (not printed one by one)
+
+Quiet == {"ok-failed", "ok-chunk", "ok-intr"}
 
 NoCtx == [id |-> 0, W |-> <<>>, P |-> <<0>>, n |-> 0]
 
@@ -54,12 +56,14 @@ Judge(c, r) ==
       [] r.ev = "skip" -> "ok-skip"
       [] OTHER -> "tool:unknown-event"
 
-Init == l = 1 /\ ctx = NoCtx
+Init == l = 1 /\ ctx = NoCtx /\ tally = [v \in Quiet |-> 0]
 Next == /\ l <= Len(Recs)
         /\ LET r == Recs[l] v == Judge(ctx, r) IN
-           /\ (v \in {"ok-failed", "ok-chunk", "ok-intr"} \/ PrintT(<<"VERDICT", ToJson([i |-> l, v |-> v])>>))
+           /\ IF v \in Quiet THEN tally' = [tally EXCEPT ![v] = @ + 1]
+              ELSE PrintT(<<"VERDICT", ToJson([i |-> l, v |-> v])>>) /\ tally' = tally
            /\ ctx' = IF r.ev = "ref" THEN CtxOf(r) ELSE ctx
+           /\ (l < Len(Recs) \/ PrintT(<<"TALLY", ToJson(tally')>>))
         /\ l' = l + 1
-Spec == Init /\ [][Next]_<<l, ctx>>
+Spec == Init /\ [][Next]_<<l, ctx, tally>>
 Consumed == TLCGet("stats").diameter = Len(Recs) + 1
 =============================================================================
